@@ -328,6 +328,17 @@ def api_case(rng):
             "k": rng.randrange(n), "stale": rng.random() < 0.5}
 
 
+def api_case_mrins(rng):
+    """MR with view insertions as in real payloads: decimal sub-variable ids shifted against the renumbered element
+    ids (colliding spellings), real sub-variables derived or not; half of the cases sort the OTHER dimension by one of
+    its items, so that the MR dimension itself carries no transforms at all"""
+    n = rng.randint(3, 4)
+    return {"t": "api", "layout": rng.choice(["mrins_x_cat", "cat_x_mrins"]), "n": n,
+            "idpat": rng.choice(["one", "one", "rev", "sparse"]), "seed": rng.randrange(1 << 30),
+            "slot": rng.choice(["opposing", "opposing", "opposing", "opposing", "hide", "rename", "explicit", "fixed"]),
+            "k": rng.randrange(n), "stale": False, "sv": "dec", "all_derived": rng.random() < 0.4, "ncat": rng.randint(4, 5)}
+
+
 # ---------------------------------------------------------------------------------------
 
 
@@ -347,6 +358,8 @@ def generate(ctx):
     cases += dt_cases(ctx.rng, ctx.n(120, 3000))
     for _ in range(ctx.n(110, 2500)):
         cases.append(api_case(ctx.rng))
+    for _ in range(ctx.n(80, 800)):
+        cases.append(api_case_mrins(ctx.rng))
     from props import shim_api
     for _ in range(ctx.n(40, 600)):
         cases.append(shim_api.keys_case(ctx.rng))
@@ -511,6 +524,11 @@ def shim_one(dim, kind, dtype, xf, lo, ctx):
         findings.append(F("spec", "ref.null-raises" if has_null else "shim.first-pass-raises",
                           "%s: shimming raises %s" % (ctxs, exc)))
         return findings
+    bad = sc.non_json_path(t)
+    if bad:
+        findings.append(F("spec", "shim.non-list-value", "%s: the shim wrote a value that is not plain data into the "
+                          "caller's dict: %s (a one-shot iterator is empty for every reader but the first)" % (ctxs, bad)))
+        return findings
     got1 = sc.model_xf(t)
     want1 = sc.norm_model_xf(lo["xf1"])
     if got1 != want1:
@@ -623,6 +641,11 @@ def eval_dt(case, louts, ctx):
     if exc:
         findings.append(F("spec", "datetime.missing-element-ref" if uses_missing else "datetime.shim-raises",
                           "%s xf=%s: shimming raises %s" % (ctxs, json.dumps(xf), exc)))
+        return findings, None
+    bad = sc.non_json_path(t)
+    if bad:
+        findings.append(F("spec", "shim.non-list-value", "%s xf=%s: the shim wrote a value that is not plain data: %s" %
+                          (ctxs, json.dumps(xf), bad)))
         return findings, None
     got1 = sc.model_xf(t)
     if got1 != sc.norm_model_xf(sout["xf1"]):
